@@ -76,8 +76,10 @@ def config(case):
            "gamma": float(rng.choice([0.5, 0.1])), "momentum0": bool(rng.random() < 0.5)}
     if style == 5:
         cfg["start"], cfg["epochs"] = 1, int(rng.integers(2, 5))
-    if kind == "mixed" and cfg["lr"] > 1:
-        cfg["lr"] = 1.0  # large steps push mixed states out of the well-conditioned range quickly
+    if kind != "positive" and cfg["lr"] > 1:
+        # large steps make training with rotated bases diverge (gradients contain 1/amplitude): parameters become NaN and the
+        # sampler rightly refuses NaN probabilities - a diverged run is not a statement about the update rule
+        cfg["lr"] = 1.0
     return rng, cfg
 
 
